@@ -19,7 +19,7 @@ import (
 // and a traversal model over it predicts the exact callback sequences.
 type TNode struct {
 	Kind int      `json:"kind"` // 0 terminal, 1 empty, 2 non-terminal
-	Caps int      `json:"caps"` // non-terminal: bit0 checker, bit1 transformer; 4 = interpreter.Select(Sel)
+	Caps int      `json:"caps"` // non-terminal: bit0 checker, bit1 transformer; 4 = interpreter.Select(Sel); 5 = interpreter.Array()
 	Sel  int      `json:"sel,omitempty"`
 	Kids []*TNode `json:"kids,omitempty"`
 	id   int
@@ -45,7 +45,7 @@ func (n *TNode) String() string {
 	for i, k := range n.Kids {
 		parts[i] = k.String()
 	}
-	c := []string{"E", "E+C", "E+T", "E+C+T", "Select"}[n.Caps]
+	c := []string{"E", "E+C", "E+T", "E+C+T", "Select", "Array"}[n.Caps]
 	return fmt.Sprintf("%s(%s)", c, strings.Join(parts, " "))
 }
 
@@ -61,7 +61,7 @@ func genTNode(t *rapid.T, depth int) *TNode {
 	if k == 1 {
 		return &TNode{Kind: 1}
 	}
-	n := &TNode{Kind: 2, Caps: rapid.SampledFrom([]int{0, 1, 1, 2, 3, 4}).Draw(t, "caps")}
+	n := &TNode{Kind: 2, Caps: rapid.SampledFrom([]int{0, 1, 1, 2, 3, 4, 5}).Draw(t, "caps")}
 	nk := rapid.IntRange(0, 4).Draw(t, "nk")
 	for i := 0; i < nk; i++ {
 		n.Kids = append(n.Kids, genTNode(t, depth-1))
@@ -78,7 +78,7 @@ func genTNode(t *rapid.T, depth int) *TNode {
 
 func genC13(t *rapid.T) interface{} {
 	depth := rapid.SampledFrom([]int{1, 2, 3, 3, 4, 4, 5}).Draw(t, "depth")
-	root := &TNode{Kind: 2, Caps: rapid.SampledFrom([]int{0, 1, 1, 2, 3, 4}).Draw(t, "rootcaps")}
+	root := &TNode{Kind: 2, Caps: rapid.SampledFrom([]int{0, 1, 1, 2, 3, 4, 5}).Draw(t, "rootcaps")}
 	nk := rapid.IntRange(1, 4).Draw(t, "rootkids")
 	for i := 0; i < nk; i++ {
 		root.Kids = append(root.Kids, genTNode(t, depth-1))
@@ -210,6 +210,8 @@ func buildT(n *TNode, e *env13, pos *int) parsley.Node {
 			in = bothI{checkI{b}}
 		case 4:
 			in = interpreter.Select(n.Sel)
+		case 5:
+			in = interpreter.Array()
 		}
 		if len(kids) == 0 {
 			out = ast.NewEmptyNonTerminalNode("NT", parsley.Pos(start), in)
@@ -531,6 +533,14 @@ func checkC13(ci interface{}, st *Stats) (err error) {
 			}
 			if n.Caps == 4 {
 				return ev(n.Kids[n.Sel])
+			}
+			if n.Caps == 5 { // the value of every second child, in order
+				for i := 0; i < len(n.Kids); i += 2 {
+					if !ev(n.Kids[i]) {
+						return false
+					}
+				}
+				return true
 			}
 			evalWant = append(evalWant, fmt.Sprintf("eval %d", n.id))
 			if n.id == e.failEval {
